@@ -1011,6 +1011,36 @@ pub fn generate(ctx: &Ctx, prop: &str, rng: &mut Rng64, thorough: bool, index: u
             case.searches.push(SearchSpec { fen: a.fen(), depth: Some(d), seed: pick_seed(rng), entry, rayon_threads: rt, fresh: false, history: vec![], faults });
             case.searches.push(SearchSpec { fen: a.fen(), depth: Some(2), seed: pick_seed(rng), entry: Entry::Sync { workers: Some(1) }, rayon_threads: 1, fresh: false, history: vec![], faults: vec![] });
         }
+        "C03" if rng.chance(70) => {
+            // a pawn about to promote: the best line holds a promotion and later moves of the
+            // promoted piece. Searched deep enough for a long line, then each promotion is
+            // played, the opponent replies, and the result is searched on the same memory.
+            case.dims = *rng.pick(&[(8usize, 1024usize), (8, 64)]);
+            let p = corpus::random_promotion_race(rng);
+            let w = *rng.pick(&[1usize, 1, 2, 4]);
+            let d = 4 + rng.below(if thorough { 3 } else { 2 }) as u32;
+            let (entry, rt) = if rng.chance(700) { (Entry::Sync { workers: Some(w) }, w) } else { (Entry::Public, w) };
+            case.node_cap = 6_000_000;
+            case.searches.push(SearchSpec { fen: p.fen(), depth: Some(if w > 2 { 4 } else { d }), seed: pick_seed(rng), entry, rayon_threads: rt, fresh: false, history: vec![], faults: vec![] });
+            let promos: Vec<Mv> = p.legal_moves().into_iter().filter(|m| m.promo != 0).collect();
+            let mut picked = promos.clone();
+            while picked.len() > 2 {
+                let i = rng.below(picked.len() as u64) as usize;
+                picked.remove(i);
+            }
+            for m in picked {
+                let q = p.make(m);
+                let replies = q.legal_moves();
+                if replies.is_empty() {
+                    continue;
+                }
+                let r = q.make(*rng.pick(&replies));
+                if r.legal_moves().is_empty() {
+                    continue;
+                }
+                case.searches.push(SearchSpec { fen: r.fen(), depth: Some(1 + rng.below(3) as u32), seed: pick_seed(rng), entry: Entry::Sync { workers: Some(1) }, rayon_threads: 1, fresh: false, history: vec![], faults: vec![] });
+            }
+        }
         "C03" if rng.chance(60) => {
             // the same position again on the same memory, with a Stop that is already waiting
             // when the search comes to life: whatever the table says about the root (a mate
@@ -1492,6 +1522,23 @@ pub fn generate(ctx: &Ctx, prop: &str, rng: &mut Rng64, thorough: bool, index: u
                 }
             }
             let mut history: Vec<String> = recorded.iter().map(|m| pos.make(*m).fen()).collect();
+            // a long game: more than a hundred other positions (with more material, so never
+            // reachable from here) were recorded after these, and some of these once more
+            let long_game = rng.chance(120);
+            if long_game {
+                let again: Vec<String> = history.clone();
+                for _ in 0..(101 + rng.below(60)) {
+                    let f = match rng.below(3) {
+                        0 => corpus::random_heavy(rng),
+                        1 => corpus::random_pawn_endgame(rng),
+                        _ => corpus::random_rich(rng),
+                    };
+                    history.push(f.fen());
+                }
+                if rng.chance(500) {
+                    history.extend(again);
+                }
+            }
             let mut drawn: HashSet<String> = recorded.iter().map(|m| solve::key(&pos.make(*m))).collect();
             drawn.insert(solve::key(&pos));
             let maxd = if thorough { 9 } else { 7 };
@@ -1505,7 +1552,7 @@ pub fn generate(ctx: &Ctx, prop: &str, rng: &mut Rng64, thorough: bool, index: u
             // Half of the cases let the positions enter the history the way a game does: each
             // is searched as a root on the same artifact first (so the table also holds
             // entries for them), instead of being written into the history through the hook.
-            let organic = rng.chance(500);
+            let organic = !long_game && rng.chance(500);
             if organic {
                 let mut first = true;
                 // a game can come back to a position: sometimes the position itself is searched
